@@ -187,8 +187,23 @@ pub fn run(ctx: &mut Ctx) {
     ctx.each("masked_dna_patterns", (0..16u8).collect::<Vec<u8>>(), md_symbol);
     let max = ctx.pick(200, 2000);
     for id in [CodecId::MIupac, CodecId::MDna] {
-        let cases = ctx.cases(3000, 20);
+        let cases = ctx.cases(6000, 10);
         ctx.forall(&format!("sequences/{}", id.name()), cases, strat(id, max), dispatch);
+    }
+    for id in [CodecId::MIupac, CodecId::MDna] {
+        let th = ctx.thorough();
+        let cases = ctx.cases(6, 8);
+        let m = id.model();
+        let allowed: Vec<u8> = m.syms.iter().filter(|s| s.1 != b'?' && s.1 != b'!').map(|s| s.0).collect();
+        let st = gen::owned_spec_long(id, th).prop_map(move |mut s| {
+            for c in s.codes.iter_mut() {
+                if !allowed.contains(c) {
+                    *c = allowed[0];
+                }
+            }
+            Case { codec: id, s }
+        });
+        ctx.forall(&format!("sequences_long/{}", id.name()), cases, st, dispatch);
     }
     ctx.require_class("alt_pattern");
     ctx.require_class("straddling_5bit");
